@@ -22,7 +22,7 @@ ASSUMPTIONS = [
     "query (the library documents that Davie/Foster areas are not consistent across independent splits)",
 ]
 REQUIRED_COUNTERS = ["triples", "multi_piece_queries", "evictions", "refinements", "A_chen_checked",
-                     "wrapper_interval", "wrapper_path", "wrapper_tree", "wrapper_reverse", "zero_len"]
+                     "wrapper_interval", "wrapper_path", "wrapper_tree", "wrapper_reverse", "zero_len", "reverse_vs_base_checks"]
 THRESHOLDS = {"f64": 1e-10, "f32": 5e-4}
 CASE_TIMEOUT = 900
 
@@ -106,6 +106,20 @@ def run_case(case):
                 res = (lambda x: round(x, bmgen.ndigits(tol_))) if tol_ > 0 else (lambda x: x)
                 W, U, A = _query(bm, cfg, s, t, fl, rng)
                 pieces = probe.last_pieces if s < t else None
+                if cfg["wrapper"] == "reverse" and s < t:
+                    # the reversed object and the object it wraps are two views of ONE path: over the mirrored interval
+                    # W is the same, A is the negative, U = (t - s) W - U_base - whenever either is asked, in any order
+                    # (queries through the wrapper must not disturb what the base object holds, and vice versa)
+                    outb = base(s, t, **fl)
+                    Wb = outb if torch.is_tensor(outb) else outb[0]
+                    bump("reverse_vs_base_checks")
+                    check("reverse_W_vs_base", W, Wb, f"s={s!r} t={t!r} cfg={cfg}")
+                    if A is not None:
+                        check("reverse_A_vs_base", A, -outb[-1], f"s={s!r} t={t!r} cfg={cfg}")
+                    if U is not None:
+                        check("reverse_U_vs_base", U, (res(t) - res(s)) * Wb - outb[1], f"s={s!r} t={t!r} cfg={cfg}")
+                    W_again = _query(bm, cfg, s, t, fl)[2 if A is not None else 0]
+                    check("reverse_requery_after_base_query", W_again, A if A is not None else W, f"s={s!r} t={t!r} cfg={cfg}")
                 W1, U1, A1 = _query(bm, cfg, s, u, fl, rng)
                 W2, U2, A2 = _query(bm, cfg, u, t, fl, rng)
                 if cfg["wrapper"] == "reverse":
